@@ -1262,3 +1262,222 @@ func flattenOr(e ast.Expr, out *[]ast.Expr) {
 	}
 	*out = append(*out, e)
 }
+
+// R12.star-tries-every-offset
+func init() {
+	register(&Rule{ID: "R12.star-tries-every-offset", Props: []string{"C12"}, Floor: 1,
+		Text: "after a '*' the matcher has to try the rest of the pattern at every offset of the name; an offset may be skipped on the strength of the next pattern byte only when that byte stands for itself. In the function of internal/glob that slides a chunk along the name (found by role: the loop that calls the chunk matcher with name[i+1:]), the loop variable is advanced only by the loop's own step, unless the statement that advances it (or leaves the loop) is guarded, for the first byte of the chunk, by the exclusion of every byte the chunk matcher treats specially at the head of a chunk (the case labels of its switch on chunk[0]: class, any-one, escape) — a jump to the next occurrence of an escape character looks for a backslash in the name instead of the escaped byte, and MATCH, KEYS, PDEL, HOOKS select the wrong ids",
+		Run:  ruleStarTriesEveryOffset})
+}
+
+func ruleStarTriesEveryOffset(c *Ctx) {
+	mc := c.Func("internal/glob", "", "matchChunk")
+	if mc == nil || mc.Decl.Body == nil {
+		c.und("anchors", 0, "glob.matchChunk not found")
+		return
+	}
+	// the bytes the chunk matcher treats specially at the head of a chunk
+	metas := map[string]bool{}
+	{
+		info := mc.Info()
+		ast.Inspect(mc.Decl.Body, func(n ast.Node) bool {
+			sw, ok := n.(*ast.SwitchStmt)
+			if !ok || sw.Tag == nil {
+				return true
+			}
+			ix, ok := ast.Unparen(sw.Tag).(*ast.IndexExpr)
+			if !ok {
+				return true
+			}
+			if tv, ok := info.Types[ix.Index]; !ok || tv.Value == nil || tv.Value.String() != "0" {
+				return true
+			}
+			for _, cc := range sw.Body.List {
+				for _, e := range cc.(*ast.CaseClause).List {
+					if tv, ok := info.Types[e]; ok && tv.Value != nil {
+						metas[tv.Value.String()] = true
+					}
+				}
+			}
+			return false
+		})
+	}
+	if len(metas) == 0 {
+		c.und("metas", mc.Decl.Pos(), "matchChunk has no switch on the first byte of the chunk")
+		return
+	}
+	n := 0
+	for _, fn := range c.AllFuncs("internal/glob") {
+		if fn.Decl.Body == nil || fn.Obj == mc.Obj {
+			continue
+		}
+		info := fn.Info()
+		ast.Inspect(fn.Decl.Body, func(x ast.Node) bool {
+			loop, ok := x.(*ast.ForStmt)
+			if !ok || loop.Post == nil {
+				return true
+			}
+			// the loop variable and the call matchChunk(chunk, name[i+…:])
+			var iv types.Object
+			switch p := loop.Post.(type) {
+			case *ast.IncDecStmt:
+				if id, ok := ast.Unparen(p.X).(*ast.Ident); ok {
+					iv = info.ObjectOf(id)
+				}
+			case *ast.AssignStmt:
+				if len(p.Lhs) == 1 {
+					if id, ok := ast.Unparen(p.Lhs[0]).(*ast.Ident); ok {
+						iv = info.ObjectOf(id)
+					}
+				}
+			}
+			if iv == nil {
+				return true
+			}
+			var chunk types.Object
+			ast.Inspect(loop.Body, func(y ast.Node) bool {
+				call, ok := y.(*ast.CallExpr)
+				if !ok || callee(info, call) != mc.Obj || len(call.Args) != 2 {
+					return true
+				}
+				mentions := false
+				ast.Inspect(call.Args[1], func(z ast.Node) bool {
+					if id, ok := z.(*ast.Ident); ok && info.ObjectOf(id) == iv {
+						mentions = true
+					}
+					return true
+				})
+				if id, ok := ast.Unparen(call.Args[0]).(*ast.Ident); ok && mentions {
+					chunk = info.ObjectOf(id)
+				}
+				return true
+			})
+			if chunk == nil {
+				return true
+			}
+			n++
+			key := funcName(fn.Obj) + "/star-loop"
+			fg := newFlowGraph(info, fn.Decl.Body)
+			// locals that hold the first byte of the chunk
+			headVars := map[types.Object]bool{}
+			isHead := func(e ast.Expr) bool {
+				e = ast.Unparen(e)
+				if ix, ok := e.(*ast.IndexExpr); ok {
+					if id, ok := ast.Unparen(ix.X).(*ast.Ident); ok && info.ObjectOf(id) == chunk {
+						if tv, ok := info.Types[ix.Index]; ok && tv.Value != nil && tv.Value.String() == "0" {
+							return true
+						}
+					}
+				}
+				id, ok := e.(*ast.Ident)
+				return ok && headVars[info.ObjectOf(id)]
+			}
+			ast.Inspect(loop.Body, func(y ast.Node) bool {
+				if as, ok := y.(*ast.AssignStmt); ok && len(as.Lhs) == len(as.Rhs) {
+					for i, l := range as.Lhs {
+						if id, ok := ast.Unparen(l).(*ast.Ident); ok && isHead(as.Rhs[i]) {
+							headVars[info.ObjectOf(id)] = true
+						}
+					}
+				}
+				return true
+			})
+			// statements in the body that advance the loop variable, or leave the loop without a match
+			var prunes []ast.Node
+			ast.Inspect(loop.Body, func(y ast.Node) bool {
+				switch st := y.(type) {
+				case *ast.FuncLit:
+					return false
+				case *ast.AssignStmt:
+					for _, l := range st.Lhs {
+						if id, ok := ast.Unparen(l).(*ast.Ident); ok && info.ObjectOf(id) == iv {
+							prunes = append(prunes, st)
+						}
+					}
+				case *ast.IncDecStmt:
+					if id, ok := ast.Unparen(st.X).(*ast.Ident); ok && info.ObjectOf(id) == iv {
+						prunes = append(prunes, st)
+					}
+				case *ast.BranchStmt:
+					if st.Tok == token.BREAK && st.Label == nil {
+						prunes = append(prunes, st)
+					}
+				}
+				return true
+			})
+			bad := ""
+			var badAt ast.Node = loop
+			for _, p := range prunes {
+				excluded := map[string]bool{}
+				l := fg.LocOfOuter(p)
+				var pfacts []Fact
+				if l.Valid() {
+					pfacts = fg.DominatingFacts(l)
+				} else if blk, ok := c.Parent(p).(*ast.BlockStmt); ok {
+					// a break is no node of the flow graph: what holds where the enclosing if was decided, and its condition
+					if ifs, ok := c.Parent(blk).(*ast.IfStmt); ok {
+						if cl := fg.LocOfOuter(ifs.Cond); cl.Valid() {
+							pfacts = append(pfacts, fg.DominatingFacts(cl)...)
+							pfacts = append(pfacts, Fact{E: ifs.Cond, Neg: blk != ifs.Body})
+							l = cl
+						}
+					}
+				}
+				if l.Valid() {
+					for _, f := range pfacts {
+						if f.Tag != nil {
+							continue
+						}
+						var atoms []Fact
+						var flat func(f Fact)
+						flat = func(f Fact) {
+							e := ast.Unparen(f.E)
+							if be, ok := e.(*ast.BinaryExpr); ok && (be.Op == token.LAND && !f.Neg || be.Op == token.LOR && f.Neg) {
+								flat(Fact{E: be.X, Neg: f.Neg})
+								flat(Fact{E: be.Y, Neg: f.Neg})
+								return
+							}
+							atoms = append(atoms, Fact{E: e, Neg: f.Neg})
+						}
+						flat(f)
+						for _, a := range atoms {
+							be, ok := ast.Unparen(a.E).(*ast.BinaryExpr)
+							if !ok {
+								continue
+							}
+							ne := be.Op == token.NEQ && !a.Neg || be.Op == token.EQL && a.Neg
+							if !ne {
+								continue
+							}
+							for _, pr := range [][2]ast.Expr{{be.X, be.Y}, {be.Y, be.X}} {
+								if isHead(pr[0]) {
+									if tv, ok := info.Types[pr[1]]; ok && tv.Value != nil {
+										excluded[tv.Value.String()] = true
+									}
+								}
+							}
+						}
+					}
+				}
+				var missing []string
+				for m := range metas {
+					if !excluded[m] {
+						missing = append(missing, m)
+					}
+				}
+				sort.Strings(missing)
+				if len(missing) > 0 {
+					bad = fmt.Sprintf("the statement at %s is not guarded by the exclusion of the special head bytes %v (code points)", c.posStr(p.Pos()), missing)
+					badAt = p
+					break
+				}
+			}
+			c.check(bad == "", key, badAt.Pos(), "every offset is tried: the loop variable advances only by the loop's own step (or where the head of the chunk is a literal byte)",
+				"the star loop skips offsets of the name: "+bad+" — for a chunk that starts with an escape (or a class, or '?') the skipped offsets can hold the match, so the pattern selects the wrong names")
+			return true
+		})
+	}
+	if n == 0 {
+		c.und("loop", 0, "no loop of internal/glob slides a chunk along the name with matchChunk")
+	}
+}
